@@ -9,7 +9,8 @@ EXPL = ("R20.1 the counter-visit closure of readout reports the result of exactl
         "flow from Bucket::count() filtered by > 0. R20.3 the accumulator entry sets AllowSplitEntries before the first value and "
         "writes each item once under key_name(key) with key_labels(key) as dimensions and the described unit (default Unit::None); "
         "counters Unsigned, gauges Floating, buckets Repeated{value*count, count}. R20.4 register_* hands out the registry's shared "
-        "storage, describe_* records the unit under the metric name. R20.5 (async body: call-site facts only) every append in the "
+        "storage, describe_* records the unit under the metric name. R20.6 the described-units map a readout "
+        "carries is obtained after the three registry visits (never a snapshot the caller took before the walk). R20.5 (async body: call-site facts only) every append in the "
         "reporter task takes a fresh readout() and no readout result is discarded. Not decided: exactly-once under true races "
         "(atomic semantics, histogram crate).")
 MR = "metrique_metricsrs"
@@ -33,6 +34,26 @@ def run(ctx):
                 if cl:
                     vis[c.name] = cl[0]
         ctx.check(set(vis) == {"visit_counters", "visit_gauges", "visit_histograms"}, "R20.1", key + "#visits-all-three-kinds", loc(b), "readout does not visit counters, gauges and histograms: %s" % sorted(vis))
+        # ---- R20.6 the described units are snapshotted after the registry walk (a metric seen by the walk was described before it was
+        # registered, so a later snapshot contains its unit; an earlier one may not)
+        bpr = Prov(b)
+        bdom = b.dominators()
+        visits = [c for c in b.calls() if c.name in ("visit_counters", "visit_gauges", "visit_histograms")]
+        n_units = 0
+        for i in b.live_blocks():
+            for st in b.stmts(i):
+                if st["k"] == "assign" and st["rv"]["k"] == "agg" and "MetricAccumulatorEntry" in (st["rv"].get("adt") or "") and "units" in (st["rv"].get("fields") or []):
+                    n_units += 1
+                    uo = bpr.operand(dict(zip(st["rv"]["fields"], st["rv"]["ops"]))["units"])
+                    calls_ = [x[1] for x in uo if x[0] == "call"]
+                    early = [x for x in uo if x[0] == "arg" and not any(y[0] in ("call",) for y in uo)]
+                    late = bool(calls_) and all(all(dominates(b, v.bb, cb_, bdom) and v.bb != cb_ for v in visits) for cb_ in calls_)
+                    ctx.check(late and not early, "R20.6", key + "#units-snapshot-after-walk", loc(b, i),
+                              "the described-units map stored in the readout is %s: a metric that is described, registered and updated while the walk "
+                              "is running is collected by this readout but written without its unit" %
+                              ("a value computed by the caller before the registry walk" if early else "obtained before all three registry visits finished (bb%s)" % calls_),
+                              "units obtained at bb%s, after visits bb%s" % (calls_, [v.bb for v in visits]))
+        ctx.floor("R20.6", "readout entries carrying the units map", n_units, 1)
         # ---- counters
         cb = vis.get("visit_counters")
         if cb is not None:
